@@ -97,3 +97,65 @@ def check_bytewise(ctx, unit, prefixes=("frg::",), rule="Y.bytewise-on-bytes"):
         ctx.inst(rule, why[:150], False, loc, why, f)
     ctx.inst(rule, "unit %s" % unit.name, not bad, fns[0].loc,
              "%d functions, %d byte-wise calls with a typed argument, %d of them on a type they are not exact for" % (len(fns), n, len(bad)), None)
+
+
+WIDE = ("wchar_t", "char16_t", "char32_t")
+
+
+def check_literal_width(ctx, unit, prefixes=("frg::",), rule="Y.literal-width"):
+    """A pointer that is read as wide characters never holds a narrow string literal: for every conversion of a `void *`
+    local into `const wchar_t *` (char16_t, char32_t) the definitions of that local that reach the conversion are followed
+    back through casts; a `"..."` among them (where `L"..."` was meant) is read as characters four times as wide, past its
+    end."""
+    from . import flow
+    ctx.rule(rule, "no narrow string literal reaches a conversion to a wide-character pointer (the placeholder of a null %ls "
+             "argument is a wide literal)", 1)
+    fns = [f for f in unit.functions if f.blocks and any(f.uq.startswith(p) for p in prefixes)]
+    n, bad = 0, []
+    for f in fns:
+        pos = None
+        for x in f.all_nodes():
+            if x.kind not in ("CStyleCastExpr", "CXXStaticCastExpr", "CXXReinterpretCastExpr", "ImplicitCastExpr") or not x.children:
+                continue
+            tt = (x.get("t") or "").replace("const ", "").replace(" ", "")
+            if not any(tt == w + "*" for w in WIDE):
+                continue
+            n += 1
+            # sources of the operand
+            todo, seen = [x.children[0]], set()
+            while todo:
+                y = todo.pop()
+                if y.id in seen or len(seen) > 60:
+                    continue
+                seen.add(y.id)
+                z = std_unwrap(y)
+                hops = 0
+                while z.kind in ("CStyleCastExpr", "CXXStaticCastExpr", "CXXReinterpretCastExpr", "ImplicitCastExpr", "ParenExpr") and z.children and hops < 8:
+                    z, hops = std_unwrap(z.children[0]), hops + 1
+                if z.kind == "StringLiteral":
+                    zt = (z.get("t") or "")
+                    if not any(w in zt for w in WIDE):
+                        bad.append((z.loc, "%s: the narrow literal at %s reaches the conversion to %s at %s" % (
+                            f.sig, z.loc.split("/")[-1], x.get("t"), x.loc.split("/")[-1]), f))
+                    continue
+                if z.kind == "ConditionalOperator" and len(z.children) == 3:
+                    todo += [z.children[1], z.children[2]]
+                    continue
+                if z.kind == "DeclRefExpr" and z.get("local"):
+                    if pos is None:
+                        pos = f.positions()
+                    a, hops = x, 0
+                    while a is not None and a.id not in pos and hops < 12:
+                        a, hops = f.parent(a), hops + 1
+                    if a is None:
+                        continue
+                    for d_ in flow.reaching_defs(f, z.d["d"], a.id):
+                        if d_ is not None:
+                            todo.append(d_)
+    seenb = set()
+    for loc, why, f in bad:
+        if why not in seenb:
+            seenb.add(why)
+            ctx.inst(rule, why[:150], False, loc, why, f)
+    ctx.inst(rule, "unit %s" % unit.name, not bad, fns[0].loc if fns else "",
+             "%d conversions to wide-character pointers, %d of them reached by a narrow literal" % (n, len(bad)), None)
